@@ -21,8 +21,13 @@ def main():
         if st >= 400:
             return st, json.dumps({'error': {'code': st, 'message': 'scripted', 'status': 'X'}}).encode(), {}
         if state['kind'] == 'server_streaming':
-            return 200, b'[{"name": "r/a"}]', {}
+            return 200, b'[{"name": "r/a"}]', {'x-reply': '1'}
         return 200, (b'{}' if state['kind'] == 'void' else b'{"name": "r/a"}'), {'x-reply': '1'}
+
+    def token(resp):
+        # who wrote the response last (an iterator of a streamed reply is the server's until someone replaces it)
+        n = getattr(resp, 'name', None)
+        return {'r/a': 'server', 'r/post': 'post', 'r/postm': 'postm', None: 'server'}.get(n, f'unexpected:{n!r}')
 
     srv = lh.Server(respond)
     hooks = []
@@ -36,13 +41,24 @@ def main():
             def pre(self, request, metadata):
                 hooks.append('pre')
                 md = list(metadata) + ([('x-verif-pre', '1')] if state['add'] else [])
+                if state['pre_edit']:
+                    # a NEW request object: the transport must go on with what the hook returned
+                    request = type(request)(name='things/pre')
                 return request, md
 
             def post(self, response):
-                hooks.append('post'); return response
+                hooks.append('post')
+                if state['post_edit']:
+                    response = type(response)(name='r/post')
+                return response
 
             def postm(self, response, metadata):
-                hooks.append('post_with_metadata'); return response, metadata
+                hooks.append('post_with_metadata')
+                state['postm_saw'] = token(response)
+                state['postm_hdr'] = any(k.lower() == 'x-reply' and v == '1' for k, v in metadata)
+                if state['postm_edit']:
+                    response = type(response)(name='r/postm')
+                return response, metadata
             return pre, post, postm
         pre, post, postm = mk(n)
         setattr(Rec, 'pre_' + n, pre)
@@ -56,16 +72,24 @@ def main():
         client = mod.ThingsClient(transport=T)
         for c in pl['cases']:
             del hooks[:]; del state['seen'][:]
-            state.update(status=c['status'], kind=c['kind'], add=c['preAddsMd'])
+            state.update(status=c['status'], kind=c['kind'], add=c['preAddsMd'], pre_edit=c['preEdits'], post_edit=c['postEdits'],
+                         postm_edit=c['postmEdits'], postm_saw='none', postm_hdr=False)
+            got = 'none'
             try:
                 res = getattr(client, names[c['kind']])(request={'name': 'things/a'})
                 if c['kind'] == 'server_streaming':
-                    list(res)
+                    items = list(res)
+                    got = token(items[0]) if len(items) == 1 else f'unexpected:{len(items)} items'
+                elif c['kind'] == 'unary':
+                    got = token(res)
                 outcome = 'ok'
             except Exception as e:
                 outcome = type(e).__name__
             md = any(k.lower() == 'x-verif-pre' for e in state['seen'] for k, v in e['headers'])
-            out.append(dict(i=c['i'], hooks=list(hooks), sent=len(state['seen']), sentMd=md, outcome=outcome))
+            names_sent = [json.loads(e['body'] or b'{}').get('name') for e in state['seen']]
+            sent_req = {'things/a': 'caller', 'things/pre': 'pre'}.get(names_sent[0], f'unexpected:{names_sent[0]!r}') if names_sent else 'none'
+            out.append(dict(i=c['i'], hooks=list(hooks), sent=len(state['seen']), sentMd=md, outcome=outcome, sentReq=sent_req,
+                            postmSaw=state['postm_saw'], postmHdr=state['postm_hdr'], got=got))
     finally:
         srv.stop()
     rt.emit(dict(obs=out))
